@@ -174,10 +174,13 @@ fn c09_row_tc19() {
     vcover!(use_update && st == 1 && wt.is_some(), "-U, subsonic");
     vcover!(!use_update && st == 2 && wt.is_some() && before.grspeed.is_none(), "default path, supersonic, first velocity");
     vcover!(!use_update && wv == Some(-64) && before.vrate == Some(640), "default path, rate change");
-    // a frame that carries no valid value may leave the previous value or blank it (C11)
-    vassert!(p.track == wt || (wt.is_none() && p.track == before.track), "C09: row track is not the value of the velocity squitter just applied");
-    vassert!(gs_ok(wg, p.grspeed) || (wg.is_none() && p.grspeed == before.grspeed), "C09: row ground speed is not the value of the velocity squitter just applied");
-    vassert!(p.vrate == wv || (wv.is_none() && p.vrate == before.vrate), "C09: row vertical rate is not the value of the velocity squitter just applied");
+    vcover!(!use_update && wv.is_none() && before.vrate.is_some(), "default path, rate not available on a row that has one");
+    vcover!(wv == Some(0) && before.vrate == Some(1280), "levelling off");
+    // C09: "a component or rate field of 0 ... yields no value for that quantity. The same values result on
+    // the first and on later frames": a later frame must blank exactly as the creating frame does
+    vassert!(p.track == wt, "C09: row track is not the value (or blank for 'no information') of the velocity squitter just applied");
+    vassert!(gs_ok(wg, p.grspeed), "C09: row ground speed is not the value (or blank for 'no information') of the velocity squitter just applied");
+    vassert!(p.vrate == wv, "C09: row vertical rate is not the value (or blank for 'no information') of the velocity squitter just applied");
     assert_unchanged_except(&before, &p, F_VRATE | F_VRATE_SRC | F_ALT_GNSS | F_TRACK | F_GS | F_TRACK_SRC | F_BOOK | F_CAP0);
 }
 
